@@ -250,10 +250,11 @@ def run_case(case: Dict) -> CaseResult:
                 # property's domain unless the request came from an action class
                 res.label("leaf_raised_on_templated_args")
                 continue
-            if mut == "cut" and rkind == "validator-raised" and isinstance(raised, IndexError):
-                # the cut removed the component NAME a validator reads (request[0]): that is argument arity, which the
-                # domain note of DESIGN §C05 keeps valid; counted, not reported
-                res.label("cut_left_validator_without_name")
+            if kind != "action" and rkind == "validator-raised" and isinstance(raised, IndexError):
+                # the mutation (a cut, or a replacement that turned a name into a verb) left a validator without the
+                # component NAME it reads (request[0] / request[1]): that is argument arity, which the domain note of
+                # DESIGN §C05 keeps valid; counted, not reported
+                res.label("mutation_left_validator_without_name")
                 continue
             res.violate(f"raise:{kind}:{mut}:{rkind}:{exc_sig(raised)}", f"probe#{j} request {req}: {exc_msg(raised)}")
             break
